@@ -329,7 +329,9 @@ impl<'r> Gen<'r> {
                     F::Pairs(
                         ws.into_iter()
                             .map(|w| {
-                                let l = *self.r.pick(&[1usize, 2, 7, 31, 32]);
+                                // 1..32 is what RFC 4034 allows; 0 and > 32 are lengths a foreign sender can put on the
+                                // wire and the library holds and writes back like any other
+                                let l = *self.r.pick(&[1usize, 2, 7, 31, 32, 1, 2, 6, 0, 33, 255]);
                                 (w, self.r.bytes(l))
                             })
                             .collect(),
